@@ -25,3 +25,21 @@ package seq
 //@ func (Sequence).Alphabet
 //@   pure
 //@   ensures result != nil
+
+// Aligned: the observers do not modify anything; Rows is a count (assumption on implementations).
+//@ func (Aligned).Start
+//@   pure
+//@ func (Aligned).End
+//@   pure
+//@ func (Aligned).Rows
+//@   pure
+//@   ensures result >= 0
+//@ func (Aligned).Column
+//@   assigns fresh
+//@ func (Aligned).ColumnQL
+//@   assigns fresh
+
+// CloneAnnotation returns a new annotation record (assumption on implementations).
+//@ func (Sequence).CloneAnnotation
+//@   ensures result != nil && fresh(ref(result))
+//@   assigns fresh
